@@ -56,7 +56,51 @@ def cfg_names(cfg):
     return names + extra
 
 
-def make_demography(pg, cfg, style='dicts'):
+def demography_route(cfg):
+    """which documented way of writing the same piecewise-constant demography is used: a deterministic function of the
+    configuration (so that a replay takes the same route), overridable by cfg['demography_route']"""
+    if 'demography_route' in cfg:
+        return cfg['demography_route']
+    h = sum(cfg['n'].values()) + 3 * len(cfg['epochs']) + sum(int(round(float(e['start']) * 16)) for e in cfg['epochs']) + \
+        sum(len(e['mig']) for e in cfg['epochs'])
+    return ('dicts', 'dicts', 'events', 'add_event')[h % 4]
+
+
+def make_demography_events(pg, cfg, one_by_one=False):
+    """the same demography assembled from event objects (group events and single-key events alternate; an epoch whose rates
+    are equal for all pairs is written with SymmetricMigrationRateChanges), handed over in one list or one by one"""
+    names = cfg_names(cfg)
+    ev = []
+    for i, e in enumerate(cfg['epochs']):
+        t = e['start']
+        if i % 2 == 0:
+            ev.append(pg.PopSizeChanges({p: {t: e['sizes'][p]} for p in names}))
+        else:
+            for p in names:
+                ev.append(pg.PopSizeChange(pop=p, time=t, size=e['sizes'][p]))
+        if len(names) > 1:
+            rates = {(a, b): {t: e['mig'].get((a, b), 0)} for a in names for b in names if a != b}
+            vals = {r[t] for r in rates.values()}
+            if len(vals) == 1:
+                v = vals.pop()
+                ev.append(pg.SymmetricMigrationRateChanges(pops=list(names), rate=v if (t == 0 and i % 2 == 0) else {t: v}))
+            elif i % 2 == 0:
+                ev.append(pg.MigrationRateChanges(rates))
+            else:
+                for (a, b), r in rates.items():
+                    ev.append(pg.MigrationRateChange(source=a, dest=b, time=t, rate=r[t]))
+    if one_by_one:
+        d = pg.Demography()
+        for x in ev:
+            d.add_event(x)
+        return d
+    return pg.Demography(events=ev)
+
+
+def make_demography(pg, cfg, style=None):
+    style = style or demography_route(cfg)
+    if style in ('events', 'add_event'):
+        return make_demography_events(pg, cfg, one_by_one=style == 'add_event')
     eps = cfg['epochs']
     names = cfg_names(cfg)
     pop_sizes = {p: {} for p in names}
